@@ -58,9 +58,13 @@ structure AccView where
   tree : Option DTree
 deriving Repr, Inhabited
 
+def treeAt (h : Heap) : Option Ref → Option DTree
+  | some rd => h.dtAt rd
+  | none => none
+
 def viewAt (h : Heap) (r : Ref) : Option AccView :=
   match h.accAt r with
-  | some a => some ⟨a.isCmd, a.props, match a.dtype with | some rd => h.dtAt rd | none => none⟩
+  | some a => some ⟨a.isCmd, a.props, treeAt h a.dtype⟩
   | none => none
 
 /-- the abstraction: what `for_export()` of all accessibles of an owner is computed from -/
@@ -175,12 +179,9 @@ def instViews (T : Tables) (views : List (Name × Option AccView)) (cfg : List (
 def allocView (st : Heap × List (Name × Ref)) (nv : Name × AccView) : Heap × List (Name × Ref) :=
   match nv.2.tree with
   | some t =>
-    let (h1, rd) := st.1.alloc (.dt t)
-    let (h2, r) := h1.alloc (.acc ⟨nv.2.isCmd, nv.2.props, some rd, none, none⟩)
-    (h2, st.2 ++ [(nv.1, r)])
+    (st.1 ++ [.dt t] ++ [.acc ⟨nv.2.isCmd, nv.2.props, some st.1.length, none, none⟩], st.2 ++ [(nv.1, st.1.length + 1)])
   | none =>
-    let (h2, r) := st.1.alloc (.acc ⟨nv.2.isCmd, nv.2.props, none, none, none⟩)
-    (h2, st.2 ++ [(nv.1, r)])
+    (st.1 ++ [.acc ⟨nv.2.isCmd, nv.2.props, none, none, none⟩], st.2 ++ [(nv.1, st.1.length)])
 
 def instantiate (T : Tables) (w : World) (name cls : Name) (cfg : List (Name × PropMap)) : World :=
   let s := (instViews T (describeH w (.cls cls)) cfg).foldl allocView (w.heap, [])
